@@ -256,6 +256,7 @@ fn canon_of(hist: &[Act], r: &RunResult) -> (u64, u64) {
     bytes.extend_from_slice(&[fails, pend, canc, eof as u8, r.finished as u8]);
     bytes.extend_from_slice(&(r.calls_started as u32).to_le_bytes());
     bytes.extend_from_slice(&(r.results.len() as u32).to_le_bytes());
+    bytes.extend_from_slice(&(r.unanswered.map(|x| x as u32 + 1).unwrap_or(0)).to_le_bytes());
     let a = crate::report::h64(&bytes);
     bytes.push(0x5a);
     let b = crate::report::h64(&bytes).rotate_left(17) ^ 0x9e3779b97f4a7c15;
@@ -286,6 +287,17 @@ impl E2Model {
                 None => "idle".to_string(),
             }
         };
+        let last = r.results.last().map(|s| {
+            let mut depth = 0;
+            let mut out = String::new();
+            for ch in s.chars() {
+                if ch == '(' { depth += 1; if depth == 2 { break; } }
+                if ch == '{' || ch == ' ' { break; }
+                out.push(ch);
+            }
+            out
+        }).unwrap_or_else(|| "no-result-yet".into());
+        let class = format!("{class}/last={last}");
         {
             let mut c = self.classes.lock().unwrap();
             *c.entry(class).or_insert(0) += 1;
